@@ -97,7 +97,7 @@ func DecodeKanji(buf *Buffer, length int) ([]byte, error) {
 		if err != nil {
 			return nil, err
 		}
-		if bits >= uint64(len(decode)) {
+		if bits >= uint64(len(decode)) || decode[bits] == 0 {
 			return nil, fmt.Errorf("bitstream: invalid kanji code: %d", bits)
 		}
 		ret.WriteRune(rune(decode[bits]))
